@@ -5,6 +5,27 @@ props = [json.loads(l) for l in open('properties.jsonl')]
 ids = [p['id'] for p in props]
 # id -> (level, technique, text, note, design_ref)
 checks = {
+ 'C05': ('exploration', 'runtime monitor: independent membership evaluator (math/big intervals, code-point lengths, anchored patterns) vs error result and store content on 5 write paths',
+         'For generated restriction chains (base type x up to 3 typedef levels; ranges with alternatives, open ends, min/max, 64-bit and decimal64 bounds; lengths; patterns incl. invert-match; enum/bits/identityref) every boundary candidate is written through Set, SetValue, JSON, XML and node sources; a value outside the effective type must be rejected and leave the stored value unchanged; no check may panic. Over-rejections are counted, not alarmed.',
+         'trusts the evaluator (regexp anchored, math/big); typed Set of enum/bits/identity labels is not asserted (conversion decides membership)', 'DESIGN.md 3/C05'),
+ 'C06': ('exploration', 'runtime monitor: renderer-recorded denotations vs canonical dump through public accessors; dump equality across repeated loads and across worker processes',
+         'Generated module texts cover the statement kinds and 6 quoting styles; the renderer records, for every argument, the exact string it denotes and where it must be read back; each expectation is looked up in the canonical dump. The same text is loaded 5 times in-process and in two different worker processes and the dumps must be identical.',
+         'trusts the renderer inverse (string escaping rules of RFC 7950 6.1.3); constructs the grammar rejects (empty bodies, concatenation where the grammar takes a single token) are outside the generator domain', 'DESIGN.md 3/C06'),
+ 'C07': ('exploration', 'runtime monitor: model projection of the unconstrained tree vs token-decoded JSON of the constrained read (leaf path/value sets); store immutability; invalid values must error',
+         'content, depth, fields, fc.xfields, with-defaults=trim, fc.range and fc.max-node-count singly, in pairs and triples, in one query or applied stepwise to an already constrained selection, on root / container / list / entry targets; the set of (path,value) leaves of the answer must equal the model projection; reads must not modify the store; invalid parameter values must be errors.',
+         'trusts the projection model (c07params.project); empty containers compared at info level; window convention [a,b)', 'DESIGN.md 3/C07'),
+ 'C13': ('exploration', 'crash/hang monitor: recovered panics, worker death, per-input cpu+rss watchdog; store read-back after every request',
+         'Hostile request content against valid schemas: JSON shape mismatches at every document position x 10 kinds, missing/duplicate keys, all truncations and single-character mutations of documents, paths and queries, grammar-fuzz catalogs for paths, queries and XPath, XML shape mismatches, SetValue with every Go kind; any panic, fatal error or cpu/memory overrun is a violation; read-only requests must leave the store unchanged and the store must stay exportable.',
+         'workers are separate processes; watchdog thresholds 20 s cpu / 3 GiB rss per input', 'DESIGN.md 3/C13'),
+ 'C14': ('exploration', 'crash/hang monitor over corpus prefixes, token mutations, pathological shapes, reference cycles and opener faults; walker over every successful load',
+         'Every byte prefix of every repository YANG file <= 2 KiB (token-boundary prefixes otherwise), sampled single/double token mutations, pathological nesting / concatenation / argument sizes, typedef / grouping / identity / import cycles and faulty openers are loaded in worker processes under panic recovery, fatal-error attribution and a per-input cpu/rss watchdog; every module that loads is walked through all public accessors.',
+         'exhaustive only in truncation points per corpus text; mutations sampled', 'DESIGN.md 3/C14'),
+ 'C16': ('exploration', 'runtime monitor: truth oracle (math/big, code-point order, enum value) for leaf OP literal vs visibility in reads, edits, where rows and filtered notification events; differential run without the condition',
+         'All 6 operators x 12 operand types x catalog values straddling the literal x {set, unset, unset with default} x placement {when on container, leaf, leaf-list, uses (incl. nested uses), augment; where on top-level and nested lists; filter on a scripted notification stream; when during an edit}.',
+         'literals inside the operand type; context node as the library documents (container: itself, leaf: parent)', 'DESIGN.md 3/C16'),
+ 'C19': ('exploration', 'runtime monitor: encoding/xml strict parse of writer output vs model tree; ReadXMLDoc round trip into a capture store; sibling interleavings of reference documents',
+         'Both XML writers (and pretty printing) on generated trees with an XML-hostile text catalog, whitespace family, all leaf types, second-module namespaces; output must be a single-root well-formed document denoting the tree; importing it must reproduce the tree; 5 random sibling interleavings of a reference encoding must import to the same tree.',
+         'trusts encoding/xml; characters outside XML 1.0 excluded; namespace of grouping-derived nodes accepted as defining or using module', 'DESIGN.md 3/C19'),
  'C08': ('exploration', 'runtime monitor: model lookup oracle over every addressable node x path spelling x store; store immutability check',
          'For every container, list, entry and leaf of generated trees, Find with plain / module-qualified / trailing-slash / fully percent-encoded spellings, ../ paths from the node itself and paths with query parameters must select exactly the model node (schema identity, structured path chain, key values, exported content), the rendered path must lead back, absent keys select nothing and unknown names are not-found errors.',
          'trusts the model tree and net/url escaping; stores: reference store and JSON reader', 'DESIGN.md 3/C08'),
